@@ -77,7 +77,14 @@ func NewSession(a *App, cfg engine.Config, mode Mode) *Session {
 	if cfg.FlagCount == 0 {
 		cfg.FlagCount = a.FlagCount
 	}
-	return &Session{App: a, Cfg: cfg, Mode: mode, Env: env, Res: &Res{App: a, Env: env}}
+	s := &Session{App: a, Cfg: cfg, Mode: mode, Env: env, Res: &Res{App: a, Env: env}}
+	if a.First {
+		s.First = func(ctx context.Context, sym string, input []byte) (resource.Result, error) {
+			env.Log = append(env.Log, Call{Kind: "call", Sym: "_first", Input: string(input)})
+			return resource.Result{}, nil
+		}
+	}
+	return s
 }
 
 // Resp is everything the client (and the harness) can observe of one request.
